@@ -119,19 +119,21 @@ type Run struct {
 	// DistinctByConstruction counts non-trivial cases of enumerations that generate every case exactly once
 	// (a mixed-radix index): they are distinct by construction and need no hash set entry.
 	DistinctByConstruction atomic.Int64
-	Outcomes *HashSet // distinct observed outcomes (vacuity guard)
+	Outcomes               *HashSet // distinct observed outcomes (vacuity guard)
 
-	mu       sync.Mutex
-	samples  []interface{}
-	failures []Failure
-	nfail    int64
-	kfs      []KnownFinding
-	kfHits   map[string]int64
-	kfSample map[string]Failure
-	counters map[string]int64
-	sigCount map[string]int64
-	sigSeen  map[string]int
-	notes    []string
+	mu        sync.Mutex
+	samples   []interface{}
+	firstOnce sync.Once
+	firstCase interface{}
+	failures  []Failure
+	nfail     int64
+	kfs       []KnownFinding
+	kfHits    map[string]int64
+	kfSample  map[string]Failure
+	counters  map[string]int64
+	sigCount  map[string]int64
+	sigSeen   map[string]int
+	notes     []string
 }
 
 var current *Run
@@ -340,6 +342,9 @@ func (r *Run) Finish(exhaustive bool, replay Replayer) int {
 	}
 	if len(r.samples) == 0 {
 		cov["samples"] = []interface{}{}
+		if r.firstCase != nil {
+			cov["samples"] = []interface{}{r.firstCase}
+		}
 	}
 	for k, v := range r.Extra {
 		cov[k] = v
